@@ -10,7 +10,7 @@ from vfw.core import Violation, must_return
 from vfw.model import stencil as M
 
 PROPERTY = "C01"
-SIZES = {"quick": 3200, "thorough": 160000}
+SIZES = {"quick": 6400, "thorough": 160000}
 RULE = (
     "Hypothesis draws an axis layout (1-3 axes, any position subset containing center, 2-6 cells; "
     "thorough 2-9), a float64 array on drawn positions with 0-2 extra dims in a drawn dim order, an "
